@@ -74,8 +74,11 @@ def frame_cases(tier: str, rng: random.Random) -> List[Dict[str, Any]]:
                     out.append(dict(kind="frame", variant=variant, nv=nv, role="recv", expect=True, n=n, bells=list(bells), by=0, earlier_session=True))
     # the application holds a register of its own across subroutines and updates it in the post routine; a first receive in
     # a branch that is not taken, before the one that counts
-    for pre, variant in (("held-register", "post_count"), ("skipped-receive", "post_m")):
+    for pre, variant in (("held-register", "post_count"), ("skipped-receive", "post_m"), ("earlier-plain-request", "seq"), ("earlier-plain-request", "post_m"),
+                         ("earlier-request-without-expectation", "seq"), ("earlier-request-without-expectation", "keep")):
         for n in (1, 2, 3):
+            if variant == "keep" and n > 1:
+                continue            # (several pairs without a post routine: the recorded finding about corrections aimed at qubit 0)
             tuples = list(itertools.product(range(4), repeat=n))
             for bells in rng.sample(tuples, min(len(tuples), 8 if tier == "quick" else 40)):
                 out.append(dict(kind="frame", variant=variant, nv=False, role="recv", expect=True, n=n, bells=list(bells), by=0, pre=pre))
@@ -186,6 +189,15 @@ def _run_frame(item):
             # the application keeps a classical register of its own across subroutines (a counter it updates on the controller)
             held = conn.builder.new_register()
             conn.flush()
+        elif c.get("pre") in ("earlier-plain-request", "earlier-request-without-expectation"):
+            # an earlier receive on the same socket and connection, in a subroutine of its own: a plain one-pair request (Psi-:
+            # both corrections), or one with the expectation explicitly switched off; its qubit is measured
+            conn.link.bell = [3]
+            conn.link.remote.append(dict(remote=1, purpose=0, type="K", n=1))
+            kw0 = {} if c["pre"] == "earlier-plain-request" else {"expect_phi_plus": False}
+            sock.recv_keep(1, **kw0)[0].measure()
+            conn.flush()
+            conn.link.seq, conn.link.bell = 0, list(c["bells"])
         elif c.get("pre") == "skipped-receive":
             # an outcome known from an earlier subroutine (0) guards a first receive that is therefore never executed
             b0 = Qubit(conn)
@@ -198,6 +210,8 @@ def _run_frame(item):
         if recv:
             conn.link.remote.append(dict(remote=1, purpose=0, type="K", n=n))
         ek = dict(expect_phi_plus=c["expect"]) if recv else {}
+        if recv and c["expect"] and str(c.get("pre", "")).startswith("earlier-"):
+            ek = {}             # the request relies on the documented default (Phi+ expected)
 
         def post_h(conn_, q, pair):
             q.H()
